@@ -109,6 +109,8 @@ def build_harness(ctx, cfg, cfiles, name):
         extra.append("-DC07_NO_HL")
     if not os.path.exists(os.path.join(VERIF, "harness", "c07_core.h")):
         extra.append("-DC07_NO_CORE")
+    if not os.path.exists(os.path.join(VERIF, "harness", "c07_trunc.h")) or "-DC07_NO_CORE" in extra or "-DC07_NO_HL" in extra:
+        extra.append("-DC07_NO_TRUNC")
     return ctx.cc("harness/c07.c", cfg, extra=extra + paths, name="c07-" + name)
 
 
@@ -344,6 +346,13 @@ def core_ops():
     return [l.strip() for l in open(p) if l.strip() and not l.startswith("#")]
 
 
+def trunc_ops():
+    p = os.path.join(VERIF, "gen", "c07_trunc_ops.txt")
+    if not os.path.exists(p) or not os.path.exists(os.path.join(VERIF, "harness", "c07_trunc.h")):
+        return []
+    return [l.strip() for l in open(p) if l.strip() and not l.startswith("#")]
+
+
 def corpus():
     p = os.path.join(VERIF, "gen", "c07_corpus.txt")
     if not os.path.exists(p):
@@ -520,7 +529,7 @@ def run(ctx):
         cfg = CFGS[w]
         exe = build_harness(ctx, cfg, info[w]["cfiles"], w)
         exes[w] = exe
-        ops = corpus() + deep_ops(info[w], ctx.rng, ctx.tier, w) + math_ops(ctx.rng, ctx.tier, w) + hl_ops() + core_ops() + blob_ops(ctx.rng, ctx.tier)
+        ops = corpus() + deep_ops(info[w], ctx.rng, ctx.tier, w) + math_ops(ctx.rng, ctx.tier, w) + hl_ops() + core_ops() + trunc_ops() + blob_ops(ctx.rng, ctx.tier)
         if not driver_ok:
             # the generated definitions do not compile: the C side still runs (oracle), no comparison
             c_out, c_err, rc = ctx.run_lines(exe, ops, env={"C07_HW": "1"})
@@ -546,7 +555,7 @@ def run(ctx):
         if cfg == "asan-plain-dbg":
             # the high-level and core families once more WITHOUT the hook (ASan + ASSERTs, page-rounded blobs):
             # anything that only goes wrong in the shipped blob configuration
-            bops = bops + hl_ops() + core_ops()
+            bops = bops + hl_ops() + core_ops() + (trunc_ops() if ctx.tier == "thorough" else [])
         if driver_ok:
             probs, st = run_cfg(ctx, exe_p, "PLAIN", bops, cfg)
         else:
@@ -564,7 +573,7 @@ def run(ctx):
     try:
         exe_rel = build_harness(ctx, "rel", info["W64"]["cfiles"], "rel")
         vops = math_ops(ctx.rng, "quick", "W64")
-        hops = hl_ops() + core_ops()
+        hops = hl_ops() + core_ops() + trunc_ops()
         if ctx.tier == "quick":
             # stratified: every function family is represented (first, middle, last, one random op of each)
             def strat(ops, per):
